@@ -19,7 +19,15 @@ func IsWorker() bool { return *workerFlag }
 type jobResult struct {
 	Job    int             `json:"job"`
 	Result json.RawMessage `json:"result"`
+	// Poisoned: the worker cannot be used for further jobs (WorkerPoisoned)
+	Poisoned bool `json:"poisoned,omitempty"`
 }
+
+// WorkerPoisoned, when set, is asked after every job whether this worker
+// process is still fit for further jobs (the scheduler sets it: a thread of the
+// code under test that spins for ever stays behind). A poisoned worker is
+// replaced by a fresh process.
+var WorkerPoisoned func() bool
 
 // Sharded runs jobs 0..n-1 in worker subprocesses of this same binary
 // (GOMAXPROCS=1 each, one job at a time per worker) and calls merge in the
@@ -40,7 +48,7 @@ func (r *Run) Sharded(n int, work func(job int) any, merge func(job int, raw jso
 			if err != nil {
 				Harness("worker: marshal: %v", err)
 			}
-			line, _ := json.Marshal(jobResult{job, raw})
+			line, _ := json.Marshal(jobResult{Job: job, Result: raw, Poisoned: WorkerPoisoned != nil && WorkerPoisoned()})
 			out.Write(line)
 			out.WriteByte('\n')
 			out.Flush()
@@ -63,37 +71,50 @@ func (r *Run) Sharded(n int, work func(job int) any, merge func(job int, raw jso
 		wg.Add(1)
 		go func() {
 			defer wg.Done()
-			cmd := exec.Command(os.Args[0], "-worker", "-tier", r.Tier, "-cap", r.cap.String())
-			cmd.Env = append(os.Environ(), "GOMAXPROCS=1")
-			cmd.Stderr = os.Stderr
-			stdin, _ := cmd.StdinPipe()
-			stdout, _ := cmd.StdoutPipe()
-			if err := cmd.Start(); err != nil {
-				fail <- err.Error()
-				return
-			}
-			rd := bufio.NewReaderSize(stdout, 1<<20)
-			for job := range jobs {
-				fmt.Fprintf(stdin, "%d\n", job)
-				line, err := rd.ReadBytes('\n')
-				if err != nil {
-					if err != io.EOF || len(line) == 0 {
-						cmd.Wait()
-						fail <- fmt.Sprintf("worker died on job %d: %v", job, err)
-						return
-					}
-				}
-				var jr jobResult
-				if err := json.Unmarshal(line, &jr); err != nil {
-					fail <- fmt.Sprintf("worker output on job %d: %v: %q", job, err, line)
+			for {
+				cmd := exec.Command(os.Args[0], "-worker", "-tier", r.Tier, "-cap", r.cap.String())
+				cmd.Env = append(os.Environ(), "GOMAXPROCS=1")
+				cmd.Stderr = os.Stderr
+				stdin, _ := cmd.StdinPipe()
+				stdout, _ := cmd.StdoutPipe()
+				if err := cmd.Start(); err != nil {
+					fail <- err.Error()
 					return
 				}
-				mu.Lock()
-				merge(jr.Job, jr.Result)
-				mu.Unlock()
+				rd := bufio.NewReaderSize(stdout, 1<<20)
+				replace := false
+				for job := range jobs {
+					fmt.Fprintf(stdin, "%d\n", job)
+					line, err := rd.ReadBytes('\n')
+					if err != nil {
+						if err != io.EOF || len(line) == 0 {
+							cmd.Wait()
+							fail <- fmt.Sprintf("worker died on job %d: %v", job, err)
+							return
+						}
+					}
+					var jr jobResult
+					if err := json.Unmarshal(line, &jr); err != nil {
+						fail <- fmt.Sprintf("worker output on job %d: %v: %q", job, err, line)
+						return
+					}
+					mu.Lock()
+					merge(jr.Job, jr.Result)
+					mu.Unlock()
+					if jr.Poisoned {
+						replace = true
+						break
+					}
+				}
+				stdin.Close()
+				if replace {
+					cmd.Process.Kill()
+				}
+				cmd.Wait()
+				if !replace {
+					return
+				}
 			}
-			stdin.Close()
-			cmd.Wait()
 		}()
 	}
 	wg.Wait()
